@@ -26,7 +26,7 @@ MODAL = ["set_feed_rate", "set_bed_temperature", "set_hotend_temperature", "set_
          "set_time_units", "set_temperature_units", "set_direction", "set_resolution", "sleep", "set_fan_speed", "query", "comment"]
 
 CLAUSES = {
-    "C01": ["C01_Pos", "C01_Mode"],
+    "C01": ["C01_Pos", "C01_Mode", "C01_Carries"],
     "C02": ["C02_Safe", "C02_Raises", "C02_OnlyDoc"],
     "C03": ["C03_Words", "C03_Reject", "C03_NaN"],
     "C05": ["C05_NoEmit", "C05_NoEffect"],
@@ -48,7 +48,7 @@ def tla_set(xs):
     return "{" + ", ".join(one(x) for x in xs) + "}"
 
 
-MODEL_PROPS = {"C01_Pos", "C01_Mode", "C02_Safe", "C02_Raises", "C02_OnlyDoc", "C03_Words", "C03_Reject",
+MODEL_PROPS = {"C01_Pos", "C01_Mode", "C01_Carries", "C02_Safe", "C02_Raises", "C02_OnlyDoc", "C03_Words", "C03_Reject",
                "C05_NoEmit", "C05_NoEffect", "C06_Off", "C07_Tool", "C07_Coolant", "C07_Modal", "C07_Temps",
                "C07_Params", "C20_Count", "C20_Geometry", "C20_Params"}
 
@@ -331,6 +331,7 @@ def make_controls(pid):
         ctl.append(mut("C01_Pos", 4, lambda e, t: (bump(e["rep"]["pos"][0]), bump(e["rep"]["spos"][0]))))
         ctl.append(mut("C01_Pos", 15, lambda e, t: e["lines"][0]["ws"].__setitem__(1, _w("X", 2 * U))))
         ctl.append(mut("C01_Mode", 14, lambda e, t: e["rep"].__setitem__("rel", False)))
+        ctl.append(mut("C01_Carries", 4, lambda e, t: e["lines"][0]["ws"].__setitem__(2, _w("B", 2 * U))))     # Y word mislabelled
     if pid == "C02":
         ctl.append(mut("C02_Safe", 11, lambda e, t: e["lines"].append({"ws": [_w("S", 5 * U), _w("M", 40)], "c": False})))
         ctl.append(mut("C02_Safe", 10, lambda e, t: e["lines"].append({"ws": [_w("M", 0)], "c": False})))
@@ -552,6 +553,7 @@ def run(pid, tier, replay_path=None):
     failures, done, results = validate_traces(traces + controls)
 
     # negative controls: every planted violation must be seen, with the right clause
+    deferred = []          # machinery complaints: raised below unless real executions already violate the property
     missed = []
     for k, c in enumerate(controls):
         want = c["meta"]["control"]
@@ -559,7 +561,7 @@ def run(pid, tier, replay_path=None):
         if not hit:
             missed.append(want)
     if missed:
-        raise MachineryError("negative controls not detected: %s" % missed)
+        deferred.append("negative controls not detected: %s" % missed)
 
     # vacuity: every clause of this property must have been exercised on real executions
     counts = {c: 0 for c in clauses}
@@ -569,7 +571,7 @@ def run(pid, tier, replay_path=None):
     if not replay_path:
         idle = [c for c, n in counts.items() if n == 0]
         if idle:
-            raise MachineryError("clauses never exercised: %s" % idle)
+            deferred.append("clauses never exercised: %s" % idle)
 
     mine = [f for f in failures if f[0] < nreal and f[2] in clauses]
     others = sorted({f[2] for f in failures if f[0] < nreal and f[2] not in clauses})
@@ -584,6 +586,12 @@ def run(pid, tier, replay_path=None):
     for sig, fs in known_hit.items():
         say("KNOWN-FINDING: property=%s %s (%s) -- %d occurrences, e.g. trace %d step %d" %
             (pid, kf_sigs[sig]["id"], kf_sigs[sig]["description"], len(fs), fs[0][0], fs[0][1]))
+    if deferred and not viol:
+        raise MachineryError("; ".join(deferred))
+    if deferred:
+        # controls and vacuity counts are derived from executions of the tree under test: when those already violate the
+        # property they are not a reliable yardstick -- the violations are the verdict
+        say("NOTE %s (not judged: the real executions violate the property)" % "; ".join(deferred)[:300])
     rc = EXIT_OK
     vpaths = []
     seen = set()
